@@ -49,8 +49,24 @@ def handle (tb : Tables) (c impl : T) : String :=
        else if tb.inputExtendMapOrder && multi && impl == T.node "obs" [T.ofBool baseOk, T.ofBool false] then "dev D76"
        else "mismatch spec-bad " ++ want.render
      | _, _ => "bad-op")
+  | .node "c16t" [.atom name] =>
+    -- fixed table of arrangements that used to disagree; obs: (obs acceptedOneDocument acceptedSeveralLoads sameSchema)
+    let t := T.ofBool true
+    let f := T.ofBool false
+    let (flag, on, want, old) : String × Bool × T × T :=
+      if name.startsWith "required-directive-argument-left-out" then
+        ("D78", tb.dirRequiredUnchecked, T.node "obs" [f, f, f], T.node "obs" [t, f, f])
+      else if name.startsWith "directive-and-type-share-a-name" then
+        ("D79", tb.dirRefTypeFirst, T.node "obs" [t, t, t], T.node "obs" [t, f, f])
+      else if name.startsWith "extend-implied-schema" then
+        ("D80", tb.extendSchemaNeedsSchema, T.node "obs" [t, t, t], T.node "obs" [f, t, f])
+      else ("", false, T.node "obs" [t, t, t], T.node "obs" [t, t, t])
+    if impl == want then (if on then "repaired " ++ flag else "ok")
+    else if on && impl == old then "dev " ++ flag
+    else "mismatch spec-bad " ++ want.render
   | _ => "bad-op"
 
-def flags (tb : Tables) : List (String × Bool) := [("D34", tb.assureOnce), ("D76", tb.inputExtendMapOrder)]
+def flags (tb : Tables) : List (String × Bool) := [("D34", tb.assureOnce), ("D76", tb.inputExtendMapOrder), ("D78", tb.dirRequiredUnchecked), ("D79", tb.dirRefTypeFirst),
+   ("D80", tb.extendSchemaNeedsSchema)]
 
 end Ggql.Driver.C16
